@@ -663,3 +663,184 @@ def kfc02_case(seed):
   ]
   prog = Program([variants[seed % len(variants)]], ext=EXT)
   return Case(prog, 'kf_witness', K=2, notes='KF-C02-list-of-nothing witness')
+
+
+# ---------------------------------------------------------------- family: layered (C08 base)
+
+def layered_case(seed):
+  """1-3 intermediate predicates (single rule, several rules, distinct, with negation /
+  aggregating expressions / in / records inside) and a consumer whose variable names
+  collide with the local names used inside the intermediates."""
+  rnd = random.Random(seed ^ 0x1a7e)
+  names = ['x', 'y', 'v', 'z']
+  rules = []
+  inter = []
+  if rnd.random() < 0.15:
+    # table-free consumer: everything it calls is a single-fact (injected) predicate
+    c1, c2 = rnd.choice([0, 3, 10]), rnd.choice([1, 5, 10])
+    v, w = Var('v'), Var('w')
+    rules.append(Rule('I0', [Num(c1)]))
+    items = [A('I0', v)]
+    intermediates = ['I0']
+    if rnd.random() < 0.5:
+      rules.append(Rule('I1', [Num(c2), Num(c1 + 1)]))
+      items.append(A('I1', w, rnd.choice([v, Var('u')])))
+      intermediates.append('I1')
+    cond = rnd.choice([Cmp('<', v, Num(5)), Cmp('>', v, Num(c2)), Cmp('!=', v, Num(c1)),
+                       Cmp('==', Bin('+', v, Num(1)), Num(c1 + 1))])
+    rules.append(Rule('T', [v], body=Conj(items + [cond])))
+    prog = Program(rules, ext=EXT)
+    c = Case(prog, 'layered', K=1, notes='table_free', tables=['G'])
+    c.intermediates = intermediates
+    c.check = ['T']
+    return c
+  n_inter = rnd.randint(1, 3)
+  for i in range(n_inter):
+    name = 'I%d' % i
+    a, b, c = [Var(n) for n in rnd.sample(names, 3)]
+    kind = rnd.choice(['join', 'neg_agg', 'neg', 'combine', 'in', 'multi', 'distinct', 'agg', 'cmp',
+                       'neg_agg', 'combine', 'rec_field', 'func'])
+    arity = 1
+    functional = False
+    if kind == 'join':
+      rules.append(Rule(name, [a, b], body=Conj([A('E', a, c), A('F', c, b)])))
+      arity = 2
+    elif kind == 'neg_agg':
+      op = rnd.choice(['Sum', 'Max', 'Count', 'Min'])
+      inner = AggE(op, b, Conj([A('E', a, b)]), rnd.choice(['brace', 'combine']))
+      rules.append(Rule(name, [a], body=Conj([A('G', a), Neg(Conj([Cmp('>', inner, Num(rnd.choice([0, 1, 3])))]))])))
+    elif kind == 'neg':
+      rules.append(Rule(name, [a], body=Conj([A('G', a), Neg(rnd.choice([A('E', a, b), Conj([A('E', a, b), A('F', b, c)])]))])))
+    elif kind == 'combine':
+      op = rnd.choice(['Sum', 'Max', 'Min', 'Count'])
+      rules.append(Rule(name, [a, c], body=Conj([A('G', a), Cmp('==', c, AggE(op, b, Conj([A('E', a, b)]), rnd.choice(['brace', 'combine', 'concise'])))])))
+      arity = 2
+    elif kind == 'in':
+      rules.append(Rule(name, [a, b], body=Conj([A('G', a), InP(b, ListE([a, Bin('+', a, Num(1))]))])))
+      arity = 2
+    elif kind == 'multi':
+      rules.append(Rule(name, [a], body=A('G', a)))
+      rules.append(Rule(name, [a], body=Conj([A('E', a, b), Cmp('>', b, Num(0))])))
+    elif kind == 'distinct':
+      rules.append(Rule(name, [a], distinct=True, body=A('E', a, b)))
+    elif kind == 'agg':
+      rules.append(Rule(name, [a], value=Agg(rnd.choice(['Sum', 'Max', 'Min']), b), body=A('E', a, b)))
+      functional = True
+    elif kind == 'cmp':
+      rules.append(Rule(name, [a], body=Conj([A('E', a, b), Cmp(rnd.choice(['<', '>', '!=']), a, b)])))
+    elif kind == 'rec_field':
+      rules.append(Rule(name, [a, c], body=Conj([A('E', a, b), Cmp('==', Var('r'), RecE([('p', a), ('q', Bin('+', b, Num(1)))])),
+                                                 Cmp('==', c, Field(Var('r'), 'q'))])))
+      arity = 2
+    elif kind == 'func':
+      rules.append(Rule(name, [a], value=Bin('+', b, Num(1)), body=A('E', a, b)))
+      functional = True
+    inter.append((name, arity, functional))
+  # consumer(s)
+  v1, v2, v3 = [Var(n) for n in rnd.sample(names, 3)]
+  items = [rnd.choice([A('G', v1), A('E', v1, v2), A('F', v2, v1)])]
+  out = [v1]
+  for name, arity, functional in inter:
+    if functional:
+      if rnd.random() < 0.5:
+        items.append(Cmp('==', v3, Call(name, [v1], [])))
+      else:
+        items.append(ValAtom(name, [v1], [], v3))
+      out = [v1, v3]
+    elif arity == 1:
+      items.append(A(name, v1))
+    else:
+      items.append(A(name, v1, v2 if rnd.random() < 0.7 else v3))
+  if rnd.random() < 0.3:
+    items.append(Neg(A('F', v1, v1)))
+  rules.append(Rule('T', out, body=Conj(items)))
+  if rnd.random() < 0.4 and inter:
+    # a second consumer reading the first and an intermediate again
+    name, arity, functional = inter[0]
+    w = Var('w')
+    if not functional:
+      rules.append(Rule('U', [w], body=Conj([A('T', *([w] + [Var('q%d' % i) for i in range(len(out) - 1)])),
+                                             (A(name, w) if arity == 1 else A(name, w, Var('y')))])))
+  prog = Program(rules, ext=EXT)
+  c = Case(prog, 'layered', K=2, notes='+'.join(n for n, _, _ in inter))
+  c.intermediates = [n for n, _, _ in inter] + (['T'] if any(r.pred == 'U' for r in rules) else [])
+  c.check = ['T'] + (['U'] if any(r.pred == 'U' for r in rules) else [])
+  return c
+
+
+# ---------------------------------------------------------------- family: orderby (C18)
+
+def orderby_case(seed):
+  rnd = random.Random(seed ^ 0xc18)
+  x, y, z, s = Var('x'), Var('y'), Var('z'), Var('s')
+  body = rnd.choice(['single', 'join', 'multi', 'distinct', 'agg', 'expr', 'multi'])
+  rules = []
+  cols = ['col0', 'col1']
+  if body == 'single':
+    rules.append(Rule('O', [x, y], body=A('E', x, y)))
+  elif body == 'join':
+    rules.append(Rule('O', [x, y], body=Conj([A('E', x, z), A('F', z, y)])))
+  elif body == 'multi':
+    rules.append(Rule('O', [x, y], body=A('E', x, y)))
+    rules.append(Rule('O', [x, y], body=A('F', y, x)))
+  elif body == 'distinct':
+    rules.append(Rule('O', [x, y], distinct=True, body=A('E', x, y)))
+  elif body == 'agg':
+    rules.append(Rule('O', [x], [('s', Agg('Sum', y))], distinct=True, body=A('E', x, y)))
+    cols = ['col0', 's']
+  else:
+    rules.append(Rule('O', [Bin('+', x, Num(1)), Bin('-', y, x)], body=A('E', x, y)))
+  # ordering: one or two keys, asc/desc
+  nkeys = rnd.choice([1, 2, 2])
+  kcols = rnd.sample(cols, nkeys)
+  keys = [(c, rnd.random() < 0.5) for c in kcols]
+  limit = rnd.choice([None, 0, 1, 2, 3, 1, 2])
+  form = rnd.choice(['annotation', 'denotation', 'annotation_desc_item'])
+  ann = []
+  if form == 'denotation' and body not in ('multi', 'distinct', 'agg'):
+    den = ' order_by(%s)' % ', '.join('"%s%s"' % (c, ' desc' if d else '') for c, d in keys)
+    if limit is not None:
+      den += ' limit(%d)' % limit
+    rules[0].denotation = den
+  else:
+    if form == 'annotation_desc_item':
+      parts = []
+      for c, d in keys:
+        parts.append('"%s"' % c)
+        if d:
+          parts.append('"DESC"')
+      ann.append('@OrderBy(O, %s);' % ', '.join(parts))
+    else:
+      ann.append('@OrderBy(O, %s);' % ', '.join('"%s%s"' % (c, ' desc' if d else '') for c, d in keys))
+    if limit is not None:
+      ann.append('@Limit(O, %d);' % limit)
+  # consumers
+  ckind = rnd.choice(['project', 'sum', 'join', 'selfjoin', 'two_readers', 'project'])
+  if cols[1] == 's':
+    def O(a, b):
+      return Atom('O', [a], [('s', b)])
+  else:
+    def O(a, b):
+      return Atom('O', [a, b], [])
+  if ckind == 'project':
+    rules.append(Rule('C', [x], body=O(x, y)))
+  elif ckind == 'sum':
+    rules.append(Rule('C', [], [('t', Agg('Sum', y)), ('n', Agg('Sum', Num(1)))], distinct=True, body=O(x, y)))
+  elif ckind == 'join':
+    rules.append(Rule('C', [x, z], body=Conj([O(x, y), A('G', z), Cmp('<=', z, x)])))
+  elif ckind == 'selfjoin':
+    rules.append(Rule('C', [x, z], body=Conj([O(x, y), O(z, Var('w')), Cmp('<', x, z)])))
+  else:
+    rules.append(Rule('R1', [x], body=O(x, y)))
+    rules.append(Rule('R2', [y], body=O(x, y)))
+    rules.append(Rule('C', [x, y], body=Conj([A('R1', x), A('R2', y)])))
+  extra = rnd.choice([None, None, '@NoInject(O);', '@With(O);', '@NoWith(O);'])
+  if extra:
+    ann.append(extra)
+  prog = Program(rules, ann, ext=EXT)
+  c = Case(prog, 'orderby', K=3 if body in ('single', 'distinct', 'expr', 'agg') and ckind not in ('selfjoin', 'two_readers') else 2,
+           notes='%s/%s/%s/limit=%s/%s' % (body, form, ckind, limit, extra))
+  c.order_specs = {'O': (keys, limit)}
+  c.ordered_preds = {'O'}
+  c.check = ['O', 'C']
+  return c
